@@ -805,6 +805,8 @@ func main() {
 			for j := range jobs {
 				r := rand.New(rand.NewSource(j.seed))
 				switch j.kind {
+				case "strlimit":
+					strLimitCase(r, run)
 				case "rt":
 					ops := genRoundTrip(r)
 					run.Eval(1)
@@ -843,6 +845,9 @@ func main() {
 			jobs <- job{k.kind, sr.Int63()}
 		}
 	}
+	for i := run.Pick(6000, 120000); i > 0; i-- {
+		jobs <- job{"strlimit", sr.Int63()}
+	}
 	close(jobs)
 	wg.Wait()
 	huffman(run)
@@ -872,6 +877,8 @@ func main() {
 	}
 	cwg.Wait()
 	run.Require("cold_start_processes", 40)
+	run.Require("string_limit_blocks_within_limit", 500)
+	run.Require("string_limit_blocks_beyond_limit", 500)
 	run.Require("ref_verdict_accept", 1000)
 	run.Require("ref_verdict_reject", 1000)
 	run.Require("roundtrip_blocks_with_two_size_updates", 10)
